@@ -337,6 +337,10 @@ func toBits(bitDefintions []*meta.Bit, v interface{}) (val.Bits, error) {
 			declared := false
 			for _, bitDef := range bitDefintions {
 				if strBit == bitDef.Ident() {
+					if bitDef.Position >= 64 {
+						// val.Bits holds positions in 64 bits; shifting further would drop the bit silently
+						return result, fmt.Errorf("bit '%s' at position %d cannot be held, positions end at 63", strBit, bitDef.Position)
+					}
 					declared = true
 					result.Labels = append(result.Labels, strBit)
 					result.Positions = result.Positions | (1 << bitDef.Position)
